@@ -119,7 +119,7 @@ func (d *Doc) BytesXRefStream(useObjStm bool) []byte {
 	for n := 0; n < size; n++ {
 		e, ok := ents[n]
 		if !ok {
-			g := 0
+			g := d.FreeGen
 			if n == 0 {
 				g = 65535
 			}
